@@ -48,6 +48,11 @@ claim('C11', 'exhaustive enumeration of all ascending subsets n<=6 x 7 state kin
       'including repeatability; in-circuit bookkeeping is checked on generated prefix/measure/middle/measure/suffix programs executed twice, with index shifting.',
       'trusted: vf/ref.py born_marginal / project_outcome; no frequency test (not claimed by the property)')
 
+claim('C07', 'model-based generation of append/query histories (Hypothesis, shrinks as one sequence) + exhaustive short histories + enumeration of (r,S) and of the Clifford groups by closure; oracle: dense reference unitary, U^dagger P U for all 4^(n+1) Paulis, string Pauli algebra',
+      'Every query in every generated or enumerated history is compared for ALL phased Paulis with the conjugation by the dense product of the gates appended so far; '
+      'all histories of length<=4 (1 wire) / <=3 (2 wires) are enumerated; the group-level statements are decided completely for n=1 and (thorough) n=2.',
+      'trusted: vf/ref.py embed and Pauli algebra; F2 convention decided by C08; Sp(2n,F2) elements from spf2.from_int_tuple (C09), re-verified symplectic')
+
 NOT_YET = 'check not built yet in this session (work in progress; see DESIGN.md section 4 for the planned generator and oracle)'
 
 ALL = [f'C{i:02d}' for i in range(1, 21)]
